@@ -11,7 +11,7 @@ use super::disjunction::Disjunction;
 use super::score_combiner::{DisjunctionMaxCombiner, DoNothingCombiner, ScoreCombiner, SumCombiner};
 use super::union::{BitSetPostingUnion, SimpleUnion};
 use super::*;
-use crate::docset::{DocSet, BLOCK_NUM_TINYBITSETS, COLLECT_BLOCK_BUFFER_LEN, TERMINATED};
+use crate::docset::{DocSet, SeekDangerResult, BLOCK_NUM_TINYBITSETS, COLLECT_BLOCK_BUFFER_LEN, TERMINATED};
 use crate::{DocId, Score};
 use common::{BitSet, TinySet};
 
@@ -394,7 +394,7 @@ fn reqopt(steps: usize) {
     let mut i = 0;
     while i < steps {
         let op: u8 = kani::any();
-        kani::assume(op < 2);
+        kani::assume(op < 3);
         // the score may be read (or not) between calls; reading it moves the optional scorer
         let read_score: bool = kani::any();
         if read_score && ds.doc() != TERMINATED {
@@ -404,7 +404,27 @@ fn reqopt(steps: usize) {
             // cached: reading again gives the same value
             assert!(ds.score() == s);
         }
-        step::<{ OPS_SEEKADV }, _>(&mut ds, &ls, pred, op);
+        if op < 2 {
+            step::<{ OPS_SEEKADV }, _>(&mut ds, &ls, pred, op);
+        } else {
+            // seek_danger(t): how an enclosing Intersection drives its non-leading members
+            let cur = ds.doc();
+            let t: DocId = kani::any();
+            kani::assume(t >= cur && t < TERMINATED);
+            match ds.seek_danger(t) {
+                SeekDangerResult::Found => {
+                    assert!(a.contains(t));
+                    assert_eq!(ds.doc(), t);
+                }
+                SeekDangerResult::SeekLowerBound(lb) => {
+                    assert!(!a.contains(t));
+                    let exp = next_where(&ls, t, pred);
+                    assert!(lb == TERMINATED || (lb > t && lb <= exp));
+                    // the leaves' default seek_danger leaves them valid: doc() is the seek result
+                    assert_eq!(ds.doc(), exp);
+                }
+            }
+        }
         i += 1;
     }
     if ds.doc() != TERMINATED {
